@@ -1,6 +1,8 @@
 """C03 — retry exactly when permitted: no premature give-up, no wasted backoff."""
 from __future__ import annotations
 
+from hypothesis import strategies as st
+
 from . import _common as C
 from .. import gen, oracles
 from ..runner import Property, Stream, Verdict
@@ -24,6 +26,17 @@ PROFILE = {
 }
 
 
+@st.composite
+def model_case(draw):
+    case = draw(C.with_entry(gen.retry_case(PROFILE), C.WIDE_ENTRIES))
+    case["string_answers"] = draw(st.sampled_from([False] * 9 + [True]))
+    if case["cfg"].get("budget") is not None and gen.chance(draw, 0.3, "c03-steal"):
+        # the budget is shared: somebody else takes tokens while this run is between its failure and its own consume()
+        for c in case["calls"]:
+            c["steal"] = draw(st.lists(st.integers(0, 4), min_size=1, max_size=3, unique=True))
+    return case
+
+
 def check(case: dict) -> Verdict:
     v = Verdict()
     if case.get("string_answers") and case["entry"].endswith(".call") and "decorator" not in case["entry"]:
@@ -37,8 +50,8 @@ def check(case: dict) -> Verdict:
             v.nontrivial = True
         for h in info["H_sizes"][-1:]:
             v.tag(f"|H|={h}")
-        for k in ("final_attempt_retryable", "budget", "abort", "handler", "deferred"):
-            if info[k]:
+        for k in ("final_attempt_retryable", "budget", "abort", "handler", "deferred", "stolen"):
+            if info.get(k):
                 v.tag(k)
         v.tag(C.reason_tag(cv))
     v.violations = out
@@ -46,7 +59,6 @@ def check(case: dict) -> Verdict:
     return v
 
 
-from hypothesis import strategies as st  # noqa: E402
 
 GARBAGE = ["$none", "soon", "$list"]
 
@@ -124,7 +136,7 @@ PROP = Property(
     ),
     assumptions=["model and implementation arithmetic are both exact on the k/64 s grid"],
     streams=[
-        Stream("model", check, strategy=st.tuples(C.with_entry(gen.retry_case(PROFILE), C.WIDE_ENTRIES), st.sampled_from([False] * 9 + [True])).map(lambda t: {**t[0], "string_answers": t[1]}), quick=16000, thorough=400000),
+        Stream("model", check, strategy=model_case(), quick=16000, thorough=400000),
         Stream("garbage_delay", check_garbage, strategy=garbage_case(), quick=2000, thorough=40000),
     ],
 )
